@@ -1743,7 +1743,17 @@ class WalkMapper(Mapper[None, None, P]):
 
     map_roll = _map_index_remapping_base
     map_axis_permutation = _map_index_remapping_base
-    map_reshape = _map_index_remapping_base
+
+    def map_reshape(self, expr: Reshape,
+                    *args: P.args, **kwargs: P.kwargs) -> None:
+        if not self.visit(expr, *args, **kwargs):
+            return
+
+        self.rec(expr.array, *args, **kwargs)
+        # newshape may have array-valued components (as CopyMapper and
+        # CombineMapper assume)
+        self.rec_idx_or_size_tuple(expr.newshape, *args, **kwargs)
+        self.post_visit(expr, *args, **kwargs)
 
     def _map_index_base(self,
                         expr: IndexBase, *args: P.args, **kwargs: P.kwargs) -> None:
